@@ -243,6 +243,46 @@ def udigit_variants(text):
     return res
 
 
+# routes to a transform: direct call, apply_transformation, and transformation chains built from every
+# configuration form (vinegar.transform.get_transformation_chain / apply_transformation_chain): str entry, dict with
+# a bare scalar (True/False, 1/0, "x"/"", None), list, tuple, dict of keyword arguments, non-dict Mapping
+ROUTES = ["apply", "chain_scalar_bool", "chain_list", "chain_dict", "chain_scalar_int", "chain_scalar_str", "chain_tuple",
+          "chain_mapping", "apply_chain", "chain_str", "chain_none", "chain_after_identity"]
+ROUTES_MAC = ["apply", "chain_list", "chain_dict", "chain_tuple", "chain_mapping", "apply_chain", "chain_scalar_case",
+              "chain_after_identity"]
+NEEDS_NO_RAISE = ("chain_str", "chain_none")
+MODNAME = {"v4": "ipv4_address", "v6": "ipv6_address", "mac": "mac_address", "ip": "ip_address"}
+
+
+def route_callable(c):
+    import types
+    from vinegar import transform as TR
+    fam, fn, r, via = c["fam"], c["fn"], c["raise"], c.get("via", "direct")
+    f = getattr(MODS[fam], fn)
+    name = f"{MODNAME[fam]}.{fn}"
+    mac = fam == "mac"
+    kw = ({"target_case": c["mc"], "delimiter": c["md"], "raise_error_if_malformed": r} if mac
+          else {"raise_error_if_malformed": r})
+    pos = [c["mc"], c["md"], r] if mac else [r]
+    if via == "direct":
+        return (lambda s: f(s, **kw)) if mac else (lambda s: f(s, r))
+    if via == "apply":
+        return (lambda s: TR.apply_transformation(name, s, **kw)) if mac else (lambda s: TR.apply_transformation(name, s, r))
+    cfg = {"chain_scalar_bool": bool(r), "chain_scalar_int": 1 if r else 0, "chain_scalar_str": "yes" if r else "",
+           "chain_list": list(pos), "chain_tuple": tuple(pos), "chain_dict": dict(kw),
+           "chain_mapping": types.MappingProxyType(dict(kw)), "apply_chain": list(pos), "chain_none": None,
+           "chain_scalar_case": c["mc"], "chain_after_identity": dict(kw)}.get(via)
+    if via == "chain_str":
+        chain = [name]
+    elif via == "chain_after_identity":
+        chain = [{"string.add_suffix": ""}, {name: cfg}]
+    else:
+        chain = [{name: cfg}]
+    if via == "apply_chain":
+        return lambda s: TR.apply_transformation_chain(chain, s)
+    return lambda s: TR.get_transformation_chain(chain)(s)
+
+
 class C16(Check):
     ident = "C16"
     technique = "Coq proofs over hand-written recognisers/arithmetic + extracted-model correspondence with libc oracles"
@@ -265,8 +305,19 @@ class C16(Check):
     def mk(self, fam, fn, raise_, a, b, ref1=None, ref2=None, mc="upper", md=":", tag=""):
         k = f"{fam}/{fn}/{tag}"
         self._hist[k] = self._hist.get(k, 0) + 1
+        # the route by which the function is reached: half of the cases directly, the others spread over
+        # apply_transformation and every configuration form of a transformation chain
+        self._n = getattr(self, "_n", 0) + 1
+        routes = ROUTES_MAC if fam == "mac" else ROUTES
+        via = "direct" if self._n % 2 else routes[(self._n // 2) % len(routes)]
+        if via in NEEDS_NO_RAISE and raise_:
+            via = "chain_list"
+        if via in ("chain_scalar_case",) and (md != ":" or raise_):
+            via = "chain_dict"
+        k2 = f"via/{via}"
+        self._hist[k2] = self._hist.get(k2, 0) + 1
         return {"fam": fam, "fn": fn, "raise": raise_, "s1": a, "s2": b, "ref1": ref1, "ref2": ref2,
-                "mc": mc, "md": md}
+                "mc": mc, "md": md, "via": via}
 
     # references built on the ipaddress module (address arithmetic / independent text parser)
     @staticmethod
@@ -522,10 +573,7 @@ class C16(Check):
 
     # ---- implementation
     def fcall(self, c):
-        f = getattr(MODS[c["fam"]], c["fn"])
-        if c["fam"] == "mac":
-            return lambda s: f(s, target_case=c["mc"], delimiter=c["md"], raise_error_if_malformed=c["raise"])
-        return lambda s: f(s, c["raise"])
+        return route_callable(c)
 
     @staticmethod
     def call(f, s):
